@@ -5,7 +5,7 @@ spec:   IoBuf (port algebra Slice/Index/Concat/Invert over [dir, inv, src]; Buff
         register machine; evaluation of port-building programs; theorems), IoBufCases (builder: every state with a
         finished program = one test case with the specification's answers), IoBufFF (the FFBuffer machine explored
         over all event sequences; theorem Latency1), IoBufTrace (validation of recorded executions and netlists).
-stages: mc        IoBufCases theorems on every enumerated port, IoBufFF Latency1, five mutant models that must fail
+stages: mc        IoBufCases theorems on every enumerated port, IoBufFF Latency1, six mutant models that must fail
                   (all TLC runs concurrently)
         cases     spec -> code: every finished program is rebuilt from io.SimulationPort leaves with the public
                   operators; len / direction / invert compared literally; (Buffer|FFBuffer, direction) constructors are
@@ -14,6 +14,9 @@ stages: mc        IoBufCases theorems on every enumerated port, IoBufFF Latency1
         tours     every edge of the IoBufFF graph replayed on the real FFBuffer (two clock domains)
         random    code -> spec: seeded random runs (signals driven directly, default and named domains, wider ports)
         netlist   Buffer / FFBuffer on SingleEndedPort / DifferentialPort: exported NIR cells
+        designs   IoUse: 1..3 buffers (IOBufferInstance on own lines / one line / via a helper, Buffer, FFBuffer, mixed) on
+                  slices of shared real pads; a pad bit used twice must be refused with DriverConflict (build_netlist and
+                  rtlil.convert), every other design must build and its netlist is judged like the single-buffer ones
         binding   corrupted recordings / netlists must be rejected
                   (tours, random, netlist and binding are judged by one batch of IoBufTrace runs)
 Verdicts: literal comparison with TLC-computed values (cases) or IoBufTrace clauses (everything else)."""
@@ -71,6 +74,17 @@ INVARIANT Latency1
 INVARIANT UnusedRegs
 CHECK_DEADLOCK FALSE
 """
+
+CFG_USE = """SPECIFICATION Spec
+CONSTANTS Mutant = "{mutant}"
+ Plans <- {plans}
+ Styles = {{{styles}}}
+INVARIANT UseLaws
+INVARIANT PortsOK
+CHECK_DEADLOCK FALSE
+"""
+
+ALL_STYLES = '"raw_lines", "raw_loop", "raw_helper", "comb_se", "comb_diff", "ff_se", "ff_diff", "mixed_se", "mixed_diff"'
 
 CFG_TRACE = """SPECIFICATION Spec
 CONSTANTS Mutant = ""
@@ -357,6 +371,17 @@ def export_netlist(prog, cls, kind, bdir):
     with warnings.catch_warnings():
         warnings.simplefilter("ignore")
         nl = build_netlist(Fragment.get(m, None), ports=ports)
+    item["cells"], tops_i, tops_o = _cells(nl)
+    for name in ("o", "oe"):
+        if name in tops_i:
+            item["top_i"][name] = tops_i[name]
+    item["top_o"] = tops_o.get("i", [])
+    return item
+
+
+def _cells(nl):
+    """NIR netlist -> (cells as IoBufTrace records, top-level inputs name -> [start, width], outputs name -> nets)."""
+    from amaranth.hdl import _nir as nir
     ionames = [p.name for p in nl.io_ports]
 
     def net(n):
@@ -370,15 +395,13 @@ def export_netlist(prog, cls, kind, bdir):
         return [net(n) for n in v]
 
     blank = {"k": "other", "op": "", "ins": [], "port": [], "dir": "", "o": [], "oe": [0, 0]}
+    cells, tops_i, tops_o = [], {}, {}
     for c in nl.cells:
         d = dict(blank)
         if isinstance(c, nir.Top):
             d["k"] = "top"
-            for name, (start, width) in c.ports_i.items():
-                if name in ("o", "oe"):
-                    item["top_i"][name] = [start, width]
-            if "i" in c.ports_o:
-                item["top_o"] = val(c.ports_o["i"])
+            tops_i = {name: [start, width] for name, (start, width) in c.ports_i.items()}
+            tops_o = {name: val(v) for name, v in c.ports_o.items()}
         elif isinstance(c, nir.Operator):
             d.update(k="op", op=c.operator, ins=[val(v) for v in c.inputs])
         elif isinstance(c, nir.FlipFlop):
@@ -389,8 +412,154 @@ def export_netlist(prog, cls, kind, bdir):
                 d.update(o=val(c.o), oe=net(c.oe))
         else:
             d["op"] = type(c).__name__
-        item["cells"].append(d)
+        cells.append(d)
+    return cells, tops_i, tops_o
+
+
+# ------------------------------------------------------------------------------------------------
+# designs: several buffers on shared real pads (IoUse); the source line of every IOBufferInstance matters for the
+# sensitivity of this stage, so the ways of writing the buffers down are kept apart deliberately
+def _raw_kw(bdir, sig):
+    return {"i": {"i": sig["i"]}, "o": {"o": sig["o"], "oe": sig["oe"]}, "io": dict(sig)}[bdir]
+
+
+def _raw_line_1(port, kw):
+    from amaranth.hdl import IOBufferInstance
+    return IOBufferInstance(port, **kw)
+
+
+def _raw_line_2(port, kw):
+    from amaranth.hdl import IOBufferInstance
+    return IOBufferInstance(port, **kw)
+
+
+def _raw_line_3(port, kw):
+    from amaranth.hdl import IOBufferInstance
+    return IOBufferInstance(port, **kw)
+
+
+def _raw_helper(port, kw):
+    from amaranth.hdl import IOBufferInstance
+    return IOBufferInstance(port, **kw)
+
+
+def describe(d):
+    return "%s w=%d: " % (d["style"], d["padw"][0]) + " ; ".join(
+        "%s%s(%s, %s)" % ("~" if b["neg"] and b["kind"] != "raw" else "", {"raw": "IOBufferInstance", "comb": "Buffer", "ff": "FFBuffer"}[b["kind"]],
+                          b["bdir"], " + ".join("p%d[%d:%d]" % (g["pad"], g["lo"], g["hi"]) for g in b["segs"]))
+        for b in d["bufs"])
+
+
+def build_design(d, back="netlist"):
+    """One IoUse design on the real code. Returns the IoBufTrace 'design' item (raised = exception name or '')."""
+    from amaranth.hdl import Module, Fragment, ClockDomain, IOPort, IOBufferInstance, Signal, Cat
+    from amaranth.hdl._ir import build_netlist
+    from amaranth.lib import io
+    style, cls = d["style"], d["cls"]
+    padw = list(d["padw"])
+    bufs = [{"kind": b["kind"], "bdir": b["bdir"], "neg": bool(b["neg"]), "site": b["site"],
+             "segs": [{"pad": g["pad"], "lo": g["lo"], "hi": g["hi"]} for g in b["segs"]]} for b in d["bufs"]]
+    item = {"k": "design", "style": style, "cls": cls, "padw": padw, "bufs": bufs, "raised": "", "cells": [], "tops": [],
+            "steps": [], "bdir": "", "prog": []}
+    pads_p = [IOPort(w, name="p%d" % (n + 1)) for n, w in enumerate(padw)]
+    pads_n = [IOPort(w, name="n%d" % (n + 1)) for n, w in enumerate(padw)]
+    mask = [tuple(k % 2 == 0 for k in range(w)) for w in padw]          # wire k (0-based) inverted iff k is even
+    m = Module()
+    m.domains.sync = ClockDomain("sync")
+    sigs, raw_specs, ports = [], [], []
+    for n, b in enumerate(bufs):
+        w = sum(g["hi"] - g["lo"] for g in b["segs"])
+        sig = {"i": Signal(w, name="i_%d" % (n + 1)), "o": Signal(w, name="o_%d" % (n + 1)), "oe": Signal(1, name="oe_%d" % (n + 1))}
+        sigs.append(sig)
+        ports += [sig[x] for x in (("i",) if b["bdir"] == "i" else ("o", "oe") if b["bdir"] == "o" else ("i", "o", "oe"))]
+        if b["kind"] == "raw":
+            parts = [pads_p[g["pad"] - 1][g["lo"]:g["hi"]] for g in b["segs"]]
+            raw_specs.append((n, parts[0] if len(parts) == 1 else Cat(*parts), _raw_kw(b["bdir"], sig)))
+        else:
+            def lib(g):
+                pad = g["pad"] - 1
+                whole = (io.SingleEndedPort(pads_p[pad], invert=mask[pad]) if cls == "se" else
+                         io.DifferentialPort(pads_p[pad], pads_n[pad], invert=mask[pad]))
+                return whole[g["lo"]:g["hi"]]
+            port = lib(b["segs"][0])
+            for g in b["segs"][1:]:
+                port = port + lib(g)
+            if b["neg"]:
+                port = ~port
+            buf = io.Buffer(b["bdir"], port) if b["kind"] == "comb" else io.FFBuffer(b["bdir"], port)
+            m.submodules["b%d" % (n + 1)] = buf
+            if b["bdir"] != "i":
+                m.d.comb += [buf.o.eq(sig["o"]), buf.oe.eq(sig["oe"])]
+            if b["bdir"] != "o":
+                m.d.comb += sig["i"].eq(buf.i)
+    # raw IOBufferInstances: on lines of their own, on one line in a comprehension, or through one helper
+    if style == "raw_lines":
+        made = [(_raw_line_1, _raw_line_2, _raw_line_3)[k](port, kw) for k, (n, port, kw) in enumerate(raw_specs)]
+    elif style == "raw_loop":
+        made = [IOBufferInstance(port, **kw) for n, port, kw in raw_specs]
+    else:
+        made = [_raw_helper(port, kw) for n, port, kw in raw_specs]
+    for (n, port, kw), inst in zip(raw_specs, made):
+        m.submodules["b%d" % (n + 1)] = inst
+    try:
+        with warnings.catch_warnings():
+            warnings.simplefilter("ignore")
+            if back == "rtlil":
+                from amaranth.back import rtlil
+                rtlil.convert(m, ports=ports)
+                return item
+            nl = build_netlist(Fragment.get(m, None), ports=ports)
+    except Exception as e:
+        item["raised"] = type(e).__name__
+        item["message"] = str(e)[:300]
+        return item
+    item["cells"], tops_i, tops_o = _cells(nl)
+    for n, b in enumerate(bufs):
+        item["tops"].append({"o": tops_i.get("o_%d" % (n + 1), [0, 0]), "oe": tops_i.get("oe_%d" % (n + 1), [0, 0]),
+                             "i": tops_o.get("i_%d" % (n + 1), [])})
     return item
+
+
+def _design_worker(job):
+    """Every design of an IoUse dump on the real code: refused / built compared literally with the spec's verdict;
+    the built netlists go back for IoBufTrace."""
+    path, lo, hi, net_mod, rtlil_mod = job
+    out = {"n": 0, "n_ok": 0, "n_conflict": 0, "n_rtlil": 0, "mism": [], "items": [], "fps": [], "styles": {}, "sample": None}
+    for state in expr_replay.iter_states_range(path, lo, hi):
+        d, exp = state["d"], state["exp"]
+        out["n"] += 1
+        text = describe(d)
+        h = zlib.crc32(text.encode())
+        out["fps"].append(h)
+        out["styles"][d["style"]] = out["styles"].get(d["style"], 0) + 1
+        it = build_design(d)
+        want = "" if exp["ok"] else "DriverConflict"
+        out["n_ok" if exp["ok"] else "n_conflict"] += 1
+        if out["sample"] is None and not exp["ok"] and len(d["bufs"]) >= 2:
+            out["sample"] = {"design": text, "IoUse says": "refused (a pad bit is used twice)", "amaranth": it["raised"] or "built"}
+        if it["raised"] != want:
+            out["mism"].append({"mode": "design", "design": _plain(d), "text": text, "back": "netlist", "expected": want or "built",
+                                "actual": it["raised"] or "built", "message": it.get("message", "")})
+            continue
+        if h % rtlil_mod == 0:
+            out["n_rtlil"] += 1
+            it2 = build_design(d, back="rtlil")
+            if it2["raised"] != want:
+                out["mism"].append({"mode": "design", "design": _plain(d), "text": text, "back": "rtlil", "expected": want or "built",
+                                    "actual": it2["raised"] or "built", "message": it2.get("message", "")})
+        if exp["ok"] and h % net_mod == 0:
+            out["items"].append(it)
+    out["n_mism"] = len(out["mism"])
+    out["mism"] = out["mism"][:40]
+    return out
+
+
+def _plain(x):
+    if isinstance(x, dict):
+        return {k: _plain(v) for k, v in x.items()}
+    if isinstance(x, (list, tuple)):
+        return [_plain(v) for v in x]
+    return x
 
 
 # ------------------------------------------------------------------------------------------------
@@ -565,7 +734,7 @@ def _net_job(job):
 
 
 def _any_job(j):
-    return {"tour": _tour_job, "random": _random_job, "net": _net_job, "case": _case_worker}[j[0].split(":")[0]](j[1])
+    return {"tour": _tour_job, "random": _random_job, "net": _net_job, "case": _case_worker, "design": _design_worker}[j[0].split(":")[0]](j[1])
 
 
 def gen_programs(rng, n, maxw=9, maxleaves=4):
@@ -640,8 +809,11 @@ def judge(ctx, items, metas, stage, extra=()):
             if clause == "bad_item":
                 raise MachineryError("IoBufTrace could not evaluate %r" % (render(it["prog"]),))
             key = {"kind": it["k"], "cls": it["cls"], "buffer": me["kind"], "bdir": it["bdir"], "clause": clause,
-                   "program": render(it["prog"])}
-            if it["k"] == "net":
+                   "program": describe(it) if it["k"] == "design" else render(it["prog"])}
+            if it["k"] == "design":
+                desc = "design `%s`: netlist breaks clause %s; cells: %s" % (
+                    key["program"], clause, [(c["k"], c["op"] or c["dir"], c["port"]) for c in it["cells"][1:]])
+            elif it["k"] == "net":
                 desc = "%s buffer (%s) on %s port `%s`: netlist breaks clause %s; cells: %s" % (
                     me["kind"], it["bdir"], it["cls"], key["program"], clause,
                     [(c["k"], c["op"] or c["dir"], c["port"]) for c in it["cells"][1:]])
@@ -673,9 +845,15 @@ def run(ctx):
         builders = [("cases-w2", dict(base, leafw="0,1,2", k=0, bools="TRUE"), 6, False),
                     ("cases-k1", dict(base, leafw="2", k=1, sim="FALSE", extra="INVARIANT ExpIsEval"), 0, True),
                     ("cases-keys", dict(base, leafw="0,1,2", k=0, dirs='"io"', neg="TRUE"), 3, True)]
+    # designs on real pads (IoUse): (name, instance, judge 1 in N of the built netlists with IoBufTrace, rtlil for 1 in N)
+    uses = [("use-designs", dict(mutant="", styles=ALL_STYLES, plans="PlansThorough" if th else "PlansQuick"), 2 if th else 3, 8)]
     tour_ws = (1, 2) if th else (1,)
     jobs = [("IoBufCases", "mc/" + name, CFG_CASES.format(**inst), None, 6,
              ("-coverage", "1", "-dump", os.path.join(ctx.tmp, name)), 1) for name, inst, _, _ in builders]
+    jobs += [("MC_IoUse", "mc/" + name, CFG_USE.format(**inst), None, 4, ("-dump", os.path.join(ctx.tmp, name)), 1)
+             for name, inst, _, _ in uses]
+    jobs += [("MC_IoUse", "mc/mutant-same_site_ok", CFG_USE.format(mutant="same_site_ok", styles=ALL_STYLES, plans="PlansMutant"),
+              "UseLaws", 2, (), 0)]
     jobs += [("IoBufFF", "mc/ff-w%d" % w, CFG_FF.format(mutant="", w=w), None, 2,
               ("-coverage", "1") + (("-dump", "dot,actionlabels", os.path.join(ctx.tmp, "ffg_%d" % w)) if w in tour_ws else ()), 1)
              for w in ((1, 2, 3) if th else (1, 2))]
@@ -729,6 +907,9 @@ def run(ctx):
     cjobs = []
     for name, inst, sim_mod, real in builders:
         cjobs += [("case:" + name, j) for j in case_jobs(ctx, name, results["mc/" + name], os.path.join(ctx.tmp, name), stims, sim_mod, real)]
+    for name, inst, net_mod, rtlil_mod in uses:
+        path = os.path.join(ctx.tmp, name) + ".dump"
+        cjobs += [("design:" + name, (path, lo, hi, net_mod, rtlil_mod)) for lo, hi in expr_replay.split_dump(path, 64)]
     ctx.rng.shuffle(alljobs)
     both = cjobs + alljobs
     order = sorted(range(len(both)), key=lambda n: (n % 7, n))           # interleave long and short jobs
@@ -737,8 +918,35 @@ def run(ctx):
     for name, inst, sim_mod, real in builders:
         collect_cases(ctx, name, [byidx[n] for n, j in enumerate(both) if j[0] == "case:" + name], sim_mod)
         os.unlink(os.path.join(ctx.tmp, name) + ".dump")
+    for name, inst, net_mod, rtlil_mod in uses:
+        res = [byidx[n] for n, j in enumerate(both) if j[0] == "design:" + name]
+        os.unlink(os.path.join(ctx.tmp, name) + ".dump")
+        tot = {k: sum(x[k] for x in res) for k in ("n", "n_ok", "n_conflict", "n_rtlil", "n_mism")}
+        if tot["n"] != results["mc/" + name].distinct or tot["n_conflict"] == 0 or tot["n_ok"] == 0:
+            raise MachineryError("design replay %s is vacuous or incomplete: %r vs %d TLC states" % (name, tot, results["mc/" + name].distinct))
+        styles = {}
+        for x in res:
+            for k, v in x["styles"].items():
+                styles[k] = styles.get(k, 0) + v
+            for fp in x["fps"]:
+                ctx.case(("design", fp))
+            for mm in x["mism"]:
+                key = {"kind": "design", "style": mm["design"]["style"], "back": mm["back"], "expected": mm["expected"], "design": mm["text"]}
+                ctx.violation(key, "design `%s` (%s): building gives %s, IoUse says %s%s" % (
+                    mm["text"], mm["back"], mm["actual"], mm["expected"], (" [" + mm["message"] + "]") if mm["message"] else ""), replay=mm)
+            for it in x["items"]:
+                items.append(it)
+                metas.append({"driver": "design", "kind": "design"})
+        smp = next((x["sample"] for x in res if x["sample"]), None)
+        if smp:
+            ctx.sample(smp)
+        ctx.cov["stages"]["replay/" + name] = {"designs": tot["n"], "built (IoUse: accepted)": tot["n_ok"],
+                                               "DriverConflict (IoUse: a pad bit used twice)": tot["n_conflict"],
+                                               "also through rtlil.convert": tot["n_rtlil"], "by_style": styles,
+                                               "netlists judged by IoBufTrace": sum(len(x["items"]) for x in res)}
+        ctx.cov["traces_validated_against_impl"] += tot["n"]
     for n, (what, job) in enumerate(both):
-        if what.startswith("case:"):
+        if what.startswith("case:") or what.startswith("design:"):
             continue
         it = byidx[n]
         items.append(it)
@@ -776,7 +984,13 @@ def run(ctx):
     bad4 = json.loads(json.dumps(ngood))
     bad4["cells"].append(dict(iob))                              # a second buffer cell on the same pads
     bad5 = dict(json.loads(json.dumps(good)), raised="ValueError", steps=[])
-    demos = [bad1, bad2, bad3, bad4, bad5]
+    dgood = next((it for it in items if it["k"] == "design" and len(it["bufs"]) >= 2), None)
+    if dgood is None:
+        raise MachineryError("no built design for the binding demonstration")
+    bad6 = dict(json.loads(json.dumps(dgood)), raised="DriverConflict")          # a refusal where nothing is used twice
+    bad7 = json.loads(json.dumps(dgood))
+    bad7["bufs"][1]["segs"] = bad7["bufs"][0]["segs"]                             # a double use that was built
+    demos = [bad1, bad2, bad3, bad4, bad5, bad6, bad7]
     verdicts = judge(ctx, items, metas, "impl", demos)
     ctx.cov["traces_validated_against_impl"] -= len(demos)
     vs = verdicts[len(items):]
@@ -821,7 +1035,9 @@ def replay(ctx, rep):
     if m.get("mode") == "item":
         it = m["item"]
         me = m["meta"]
-        if it["k"] == "net":
+        if it["k"] == "design":
+            new = build_design(it)
+        elif it["k"] == "net":
             new = export_netlist(it["prog"], it["cls"], me["kind"], it["bdir"])
         elif me.get("driver") == "random":
             new = _random_job((it["prog"], me["kind"], it["bdir"], me["n"], me["seed"]))
@@ -833,6 +1049,14 @@ def replay(ctx, rep):
         vs = tracecheck.validate(ctx, "IoBufTrace", [new], "replay", cfg=CFG_TRACE)
         print("replay verdict:", vs[0])
         if vs[0][0] == "REJ":
+            print("VIOLATION property=C18 replay=(same)")
+            return 1
+        return 0
+    if m.get("mode") == "design":
+        it = build_design(m["design"], m["back"])
+        print("design:", m["text"], "(%s)" % m["back"])
+        print("amaranth:", it["raised"] or "built", it.get("message", ""), " IoUse:", m["expected"])
+        if (it["raised"] or "built") != m["expected"]:
             print("VIOLATION property=C18 replay=(same)")
             return 1
         return 0
